@@ -25,8 +25,16 @@ pub fn observe(bytes: &[u8], cfg: &Cfg, order: &[String]) -> Result<(Vec<String>
         let mut names: Vec<String> = r.list_files().map_err(|e| err_class(&e))?.cloned().collect();
         names.sort();
         let ord: Vec<String> = if order.is_empty() { names.clone() } else { order.to_vec() };
-        let mut out = vec![];
-        for n in ord {
+        let mut out: Vec<(String, FileObs)> = vec![];
+        // second attempts on the SAME reader for the files whose first attempt met an error (a caller that comes
+        // back to a file after a failure): whatever comes back then is judged like the first attempt
+        let mut ord2: Vec<String> = ord.clone();
+        let first_pass = ord.len();
+        let mut idx = 0;
+        while idx < ord2.len() {
+            let n = ord2[idx].clone();
+            idx += 1;
+            if idx > first_pass + 8 { break; }
             match r.get_file(n.clone()) {
                 Ok(Some(mut f)) => {
                     let mut data = vec![];
@@ -46,6 +54,7 @@ pub fn observe(bytes: &[u8], cfg: &Cfg, order: &[String]) -> Result<(Vec<String>
                             }
                         }
                     }
+                    if err.is_some() && idx <= first_pass { ord2.push(n.clone()); }
                     out.push((n, FileObs { data, err }));
                 }
                 Ok(None) => out.push((n, FileObs { data: vec![], err: Some("none".into()) })),
